@@ -51,6 +51,15 @@ XerRealScaled(x) == RealAbsAtLeastTen(x)
 XerRealClasses(x) ==
   (IF XerRealTiny(x) THEN {"XerRealTiny"} ELSE {}) \cup (IF XerRealScaled(x) THEN {"XerRealScaled"} ELSE {})
 
+\* a SEQUENCE / SET value in which a mandatory component of an extension addition (or of an
+\* addition group) is absent -- the value a sender of an earlier version has (X.680 25.x; Admits
+\* admits it); the text codecs demand every component that is not OPTIONAL / DEFAULT
+AbsentMandatoryAddition(env, T, v) ==
+  LET ns == TxSeqNodes(env, T, v) IN
+  \E h \in 1..Len(ns) :
+     LET ty == ns[h][1]  x == ns[h][2]  ms == AllMembers(ty) IN
+     \E g \in (Len(ty.root) + 1)..Len(ms) : ms[g].q = "M" /\ ~x[ms[g].n].p
+
 HasRealLeaf(env, T, v, P(_)) == TxAnyLeaf(env, T, v, LAMBDA t, x : t.k = "REAL" /\ P(x))
 
 ------------------------------------------------------------------------------
@@ -95,7 +104,11 @@ DocVerdicts(L, o, v, d, first, tjFirst) ==
   LET env == L.env
       T == env.types[L.top]
       at(c) == c \o "@" \o d.ind
-      encClasses == IF o.codec = "xer" /\ HasRealLeaf(env, T, v, XerRealInfinite) THEN {"XerRealInfinite"} ELSE {}
+      \* what may excuse a failing encoder: only the failure the class predicts
+      encClasses == (IF o.codec = "xer" /\ d.enc.st = "timeout" /\ HasRealLeaf(env, T, v, XerRealInfinite)
+                     THEN {"XerRealInfinite"} ELSE {})
+                    \cup (IF d.enc.st = "exc" /\ d.enc.cls = "EncodeError" /\ AbsentMandatoryAddition(env, T, v)
+                          THEN {"AbsentMandatoryAddition"} ELSE {})
   IN
   IF d.enc.st # "ok" THEN <<V(at("ENC"), "reject", ExcKey("enc", d.enc) \o App(encClasses))>>
   ELSE IF ~d.wf.ok THEN
